@@ -819,3 +819,253 @@ Proof.
   unfold two_ramp_b, two_ramp, within. rewrite !andb_true_iff, !Qleb_le, !Z.ltb_lt.
   intros [[[[[H1 H2] H3] H4] H5] H6]. apply Qeq_bool_iff in H3. repeat split; assumption.
 Qed.
+
+(* ========================================================================================== *)
+(* convert_to_arbitrary=True                                                                   *)
+
+Lemma make_ext_trap_arb_OK s times amps g : make_ext_trap_arb s times amps = OK g ->
+  existsb (fun dt => Qleb dt 0) (diffs times) = false /\
+  a_wave g = eta_points_to_waveform (s_raster s) times amps /\
+  a_tt g = map (fun i => (inject_Z (Z.of_nat i) + (1 # 2)) * s_raster s) (seq 0 (length (a_wave g))) /\
+  a_first g = hd 0 amps /\ a_last g = last amps 0 /\
+  a_area g = Qred (qsum (map (fun w => w * s_raster s) (a_wave g))) /\
+  a_shape_dur g = inject_Z (Z.of_nat (length (a_wave g))) * s_raster s /\
+  existsb (fun w => Qltb (s_max_grad s + eta_eps) (Qabs w)) (a_wave g) = false /\
+  existsb (fun dw => Qltb (s_max_slew s * (1 + eta_eps)) (Qabs (dw / s_raster s))) (diffs (a_wave g)) = false.
+Proof.
+  unfold make_ext_trap_arb.
+  destruct (forallb (fun t => Qeq_bool t 0) times); [discriminate|].
+  destruct (existsb (fun dt => Qleb dt 0) (diffs times)) eqn:E1; [discriminate|].
+  destruct (negb (on_raster (s_raster s) (last times 0))); [discriminate|].
+  destruct (Qltb 0 (hd 0 times) && negb (Qeq_bool (hd 0 amps) 0)); [discriminate|].
+  cbv zeta.
+  destruct (existsb _ (diffs (eta_points_to_waveform _ _ _))) eqn:E2; [discriminate|].
+  destruct (existsb _ (eta_points_to_waveform _ _ _)) eqn:E3; [discriminate|].
+  destruct (existsb _ (slews _ _)) eqn:E4; [discriminate|].
+  intro H. inversion H; subst; clear H. cbn [a_wave a_tt a_first a_last a_area a_shape_dur].
+  repeat split; auto.
+Qed.
+
+Lemma finish_arb_OK a d c o : finish_arb a d c = OK o ->
+  exists g, make_ext_trap_arb (e_sys a) (build_times a c) (build_amps a c) = OK g /\
+            o = {| oa_grad := g; oa_dur := d; oa_cand := c |} /\
+            Qabs (a_area g - e_area a) < eta_area_tol.
+Proof.
+  unfold finish_arb. destruct (make_ext_trap_arb _ _ _) as [g|e] eqn:E; [|discriminate].
+  destruct (Qltb _ _) eqn:L; [|discriminate]. intro H. inversion H; subst.
+  exists g. repeat split; auto. apply Qltb_lt. exact L.
+Qed.
+
+Lemma eta_arb_OK fd fb a o : eta_arb fd fb a = OK o ->
+  search fd fb a = OK (oa_dur o, oa_cand o) /\ finish_arb a (oa_dur o) (oa_cand o) = OK o.
+Proof.
+  unfold eta_arb. destruct (search fd fb a) as [[d c]|e] eqn:S; [|discriminate].
+  intro H. pose proof H as H'. apply finish_arb_OK in H. destruct H as [g [_ [-> _]]].
+  cbn [oa_dur oa_cand]. split; [reflexivity|exact H'].
+Qed.
+
+(* first / last of the sampled event are the requested end points *)
+Lemma eta_arb_endpoints_lem fd fb a o : eta_arb fd fb a = OK o ->
+  a_first (oa_grad o) = e_gs a /\ a_last (oa_grad o) = e_ge a.
+Proof.
+  intro H. apply eta_arb_OK in H. destruct H as [_ HF]. apply finish_arb_OK in HF.
+  destruct HF as [g [HM [Ho _]]]. rewrite Ho. cbn [oa_grad].
+  apply make_ext_trap_arb_OK in HM. destruct HM as [_ [_ [_ [F [L _]]]]].
+  rewrite F, L. unfold build_amps. destruct (Qltb 0 (inject_Z (c_flat (oa_cand o)) * rast a)); split; reflexivity.
+Qed.
+
+(* ---- np.interp on three / four knots ---- *)
+Lemma interp_seg1 t0 t1 w0 w1 tr wr x : ~ x <= t0 -> x <= t1 ->
+  eta_interp (t0 :: t1 :: tr) (w0 :: w1 :: wr) x = (w1 - w0) / (t1 - t0) * (x - t0) + w0.
+Proof.
+  intros H0 H1. cbn [eta_interp].
+  destruct (Qle_bool x t0) eqn:E0; [apply Qle_bool_iff in E0; contradiction|].
+  destruct (Qle_bool x t1) eqn:E1; [reflexivity|].
+  exfalso. apply Qle_bool_iff in H1. congruence.
+Qed.
+
+Lemma interp_skip t0 t1 w0 w1 tr wr x : ~ x <= t1 -> t0 <= t1 ->
+  eta_interp (t0 :: t1 :: tr) (w0 :: w1 :: wr) x = eta_interp (t1 :: tr) (w1 :: wr) x.
+Proof.
+  intros H1 H01. cbn [eta_interp].
+  destruct (Qle_bool x t0) eqn:E0; [apply Qle_bool_iff in E0; exfalso; apply H1; lra|].
+  destruct (Qle_bool x t1) eqn:E1; [apply Qle_bool_iff in E1; contradiction|].
+  reflexivity.
+Qed.
+
+(* raster centres against raster multiples *)
+Lemma centre_le i n R : 0 < R -> ((inject_Z i + (1 # 2)) * R <= inject_Z n * R <-> (i < n)%Z).
+Proof.
+  intro HR. split; intro H.
+  - assert (inject_Z i + (1 # 2) <= inject_Z n) by (apply (Qmult_le_r _ _ R HR); exact H).
+    assert (inject_Z i < inject_Z n) by lra. rewrite <- Zlt_Qlt in H1. exact H1.
+  - apply Qmult_le_compat_r; [|lra].
+    assert (i + 1 <= n)%Z by lia. rewrite Zle_Qle, inject_Z_plus in H0. change (inject_Z 1) with 1 in H0. lra.
+Qed.
+
+Lemma centre_pos i R : 0 < R -> (0 <= i)%Z -> ~ (inject_Z i + (1 # 2)) * R <= 0.
+Proof.
+  intros HR Hi H. pose proof (inject_Z_nonneg _ Hi).
+  assert (0 < (inject_Z i + (1 # 2)) * R) by (apply Qmult_lt_0_compat; lra). lra.
+Qed.
+
+Lemma build_times_raster_pos a c : (0 < c_up c)%Z ->
+  existsb (fun dt => Qleb dt 0) (diffs (build_times a c)) = false -> 0 < rast a.
+Proof.
+  intros Hu M1. pose proof (existsb_false_all _ _ M1) as HD.
+  assert (Hin1 : In ((0 + inject_Z (c_up c) * rast a) - 0) (diffs (build_times a c))).
+  { unfold build_times. destruct (Qltb 0 (inject_Z (c_flat c) * rast a)); cbn [diffs]; left; reflexivity. }
+  specialize (HD _ Hin1). cbv beta in HD.
+  assert (Hpos : 0 < 0 + inject_Z (c_up c) * rast a - 0).
+  { apply Qnot_le_lt. intro Hle. apply Qleb_le in Hle. congruence. }
+  apply (pos_prod_pos (inject_Z (c_up c))); [apply inject_Z_pos; lia|lra].
+Qed.
+
+Lemma flat_test a c : 0 < rast a -> (0 <= c_flat c)%Z ->
+  Qltb 0 (inject_Z (c_flat c) * rast a) = (0 <? c_flat c)%Z.
+Proof.
+  intros HR Hf. destruct (0 <? c_flat c)%Z eqn:E.
+  - apply Z.ltb_lt in E. apply Qltb_lt. apply Qmult_lt_0_compat; [apply inject_Z_pos; exact E|exact HR].
+  - apply Z.ltb_ge in E. assert (c_flat c = 0%Z) by lia. rewrite H.
+    destruct (Qltb 0 (inject_Z 0 * rast a)) eqn:L; [|reflexivity].
+    apply Qltb_lt in L. change (inject_Z 0) with 0 in L. lra.
+Qed.
+
+(* value of the corner list at the centre of raster cell i, in closed form *)
+Definition arb_sample_spec (a : etaArgs) (c : cand) (i : Z) : Q :=
+  let R := rast a in
+  let x := (inject_Z i + (1 # 2)) * R in
+  if (i <? c_up c)%Z then (c_amp c - e_gs a) / (inject_Z (c_up c) * R) * x + e_gs a
+  else if (i <? c_up c + c_flat c)%Z then c_amp c
+  else (e_ge a - c_amp c) / (inject_Z (c_down c) * R) * (x - inject_Z (c_up c + c_flat c) * R) + c_amp c.
+
+Lemma interp_build a c i : 0 < rast a -> (0 < c_up c)%Z -> (0 <= c_flat c)%Z -> (0 < c_down c)%Z ->
+  (0 <= i < c_up c + c_flat c + c_down c)%Z ->
+  eta_interp (build_times a c) (build_amps a c) (inject_Z (0 + i) * rast a + rast a / 2)
+  == arb_sample_spec a c i.
+Proof.
+  intros HR Hu Hf Hd Hi. unfold build_times, build_amps, arb_sample_spec. cbv zeta.
+  rewrite (flat_test a c HR Hf).
+  set (R := rast a) in *. set (X := inject_Z (0 + i) * R + R / 2).
+  assert (HX : X == (inject_Z i + (1 # 2)) * R).
+  { unfold X. rewrite Z.add_0_l. field. }
+  pose proof (inject_Z_pos _ Hu) as Pu. pose proof (inject_Z_pos _ Hd) as Pd.
+  pose proof (inject_Z_nonneg _ Hf) as Pf.
+  assert (X0 : ~ X <= 0) by (rewrite HX; apply centre_pos; [exact HR|lia]).
+  assert (TU : 0 < inject_Z (c_up c) * R) by (apply Qmult_lt_0_compat; assumption).
+  assert (TD : 0 < inject_Z (c_down c) * R) by (apply Qmult_lt_0_compat; assumption).
+  assert (TF : 0 <= inject_Z (c_flat c) * R) by (apply Qmult_le_0_compat; lra).
+  destruct (0 <? c_flat c)%Z eqn:EF.
+  - (* four corners *)
+    apply Z.ltb_lt in EF. pose proof (inject_Z_pos _ EF) as Pf'.
+    assert (TF' : 0 < inject_Z (c_flat c) * R) by (apply Qmult_lt_0_compat; assumption).
+    destruct (i <? c_up c)%Z eqn:E1.
+    + apply Z.ltb_lt in E1. rewrite interp_seg1; [rewrite HX; field; lra|exact X0|].
+      rewrite HX. setoid_replace (0 + inject_Z (c_up c) * R) with (inject_Z (c_up c) * R) by ring.
+      apply centre_le; assumption.
+    + apply Z.ltb_ge in E1.
+      assert (N1 : ~ X <= 0 + inject_Z (c_up c) * R).
+      { rewrite HX. setoid_replace (0 + inject_Z (c_up c) * R) with (inject_Z (c_up c) * R) by ring.
+        intro H. apply centre_le in H; [lia|exact HR]. }
+      rewrite interp_skip; [|exact N1|lra].
+      destruct (i <? c_up c + c_flat c)%Z eqn:E2.
+      * apply Z.ltb_lt in E2. rewrite interp_seg1; [field; lra|exact N1|].
+        rewrite HX.
+        setoid_replace (0 + inject_Z (c_up c) * R + inject_Z (c_flat c) * R)
+          with (inject_Z (c_up c + c_flat c) * R) by (rewrite inject_Z_plus; ring).
+        apply centre_le; assumption.
+      * apply Z.ltb_ge in E2.
+        assert (N2 : ~ X <= 0 + inject_Z (c_up c) * R + inject_Z (c_flat c) * R).
+        { rewrite HX.
+          setoid_replace (0 + inject_Z (c_up c) * R + inject_Z (c_flat c) * R)
+            with (inject_Z (c_up c + c_flat c) * R) by (rewrite inject_Z_plus; ring).
+          intro H. apply centre_le in H; [lia|exact HR]. }
+        rewrite interp_skip; [|exact N2|lra].
+        rewrite interp_seg1; [rewrite HX, inject_Z_plus; field; lra|exact N2|].
+        rewrite HX.
+        setoid_replace (0 + inject_Z (c_up c) * R + inject_Z (c_flat c) * R + inject_Z (c_down c) * R)
+          with (inject_Z (c_up c + c_flat c + c_down c) * R) by (rewrite !inject_Z_plus; ring).
+        apply centre_le; [exact HR|lia].
+  - (* three corners: flat = 0 *)
+    apply Z.ltb_ge in EF. assert (F0 : c_flat c = 0%Z) by lia. rewrite F0 in *. rewrite Z.add_0_r in *.
+    destruct (i <? c_up c)%Z eqn:E1.
+    + apply Z.ltb_lt in E1. rewrite interp_seg1; [rewrite HX; field; lra|exact X0|].
+      rewrite HX. setoid_replace (0 + inject_Z (c_up c) * R) with (inject_Z (c_up c) * R) by ring.
+      apply centre_le; assumption.
+    + apply Z.ltb_ge in E1.
+      assert (N1 : ~ X <= 0 + inject_Z (c_up c) * R).
+      { rewrite HX. setoid_replace (0 + inject_Z (c_up c) * R) with (inject_Z (c_up c) * R) by ring.
+        intro H. apply centre_le in H; [lia|exact HR]. }
+      rewrite interp_skip; [|exact N1|lra].
+      rewrite interp_seg1; [rewrite HX; field; lra|exact N1|].
+      rewrite HX.
+      setoid_replace (0 + inject_Z (c_up c) * R + inject_Z (c_down c) * R)
+        with (inject_Z (c_up c + c_down c) * R) by (rewrite !inject_Z_plus; ring).
+      apply centre_le; [exact HR|lia].
+Qed.
+
+Lemma last_build_times a c :
+  last (build_times a c) 0 == inject_Z (c_up c + (if Qltb 0 (inject_Z (c_flat c) * rast a) then c_flat c else 0) + c_down c)
+                              * rast a.
+Proof.
+  unfold build_times. destruct (Qltb 0 (inject_Z (c_flat c) * rast a)); cbn [last];
+    rewrite !inject_Z_plus; change (inject_Z 0) with 0; ring.
+Qed.
+
+Lemma hd_build_times a c : hd 0 (build_times a c) = 0.
+Proof. unfold build_times. destruct (Qltb 0 (inject_Z (c_flat c) * rast a)); reflexivity. Qed.
+
+(* structure of an accepted arbitrary-form result *)
+Lemma eta_arb_samples_lem fd fb a o : eta_arb fd fb a = OK o ->
+  let g := oa_grad o in let c := oa_cand o in let D := oa_dur o in
+  0 < rast a /\ find_solution a D = Some c /\
+  (0 < c_up c /\ 0 <= c_flat c /\ 0 < c_down c /\ c_up c + c_flat c + c_down c = D)%Z /\
+  length (a_wave g) = Z.to_nat D /\ length (a_tt g) = Z.to_nat D /\
+  (forall i, (i < Z.to_nat D)%nat -> nth i (a_wave g) 0 == arb_sample_spec a c (Z.of_nat i)) /\
+  (forall i, (i < Z.to_nat D)%nat -> nth i (a_tt g) 0 == (inject_Z (Z.of_nat i) + (1 # 2)) * rast a) /\
+  a_shape_dur g == inject_Z D * rast a /\
+  a_area g == qsum (map (fun w => w * rast a) (a_wave g)) /\
+  Qabs (a_area g - e_area a) < eta_area_tol.
+Proof.
+  intro H. apply eta_arb_OK in H. destruct H as [HS HF]. cbv zeta.
+  apply search_OK in HS. destruct HS as [Hfind _].
+  pose proof (find_solution_Some _ _ _ Hfind) as [p [_ [Hc [_ [Hu [Hd Hsum]]]]]].
+  apply finish_arb_OK in HF. destruct HF as [g [HM [Ho Har]]].
+  assert (Hg : oa_grad o = g) by (rewrite Ho; reflexivity). rewrite Hg. clear Ho Hg.
+  set (c := oa_cand o) in *. set (D := oa_dur o) in *.
+  assert (Cu : c_up c = fst p) by (rewrite Hc; reflexivity).
+  assert (Cd : c_down c = snd p) by (rewrite Hc; reflexivity).
+  assert (Cf : c_flat c = (D - fst p - snd p)%Z) by (rewrite Hc; reflexivity).
+  assert (Hu' : (0 < c_up c)%Z) by lia. assert (Hd' : (0 < c_down c)%Z) by lia.
+  assert (Hf' : (0 <= c_flat c)%Z) by lia. assert (HD : (c_up c + c_flat c + c_down c = D)%Z) by lia.
+  apply make_ext_trap_arb_OK in HM. destruct HM as [M1 [MW [MT [_ [_ [MA [MD _]]]]]]].
+  pose proof (build_times_raster_pos a c Hu' M1) as HR.
+  change (s_raster (e_sys a)) with (rast a) in *.
+  (* number of samples *)
+  assert (K0 : rnd_he (hd 0 (build_times a c) / rast a) = 0%Z).
+  { rewrite hd_build_times, Qdiv_0_l. reflexivity. }
+  assert (K1 : rnd_he (last (build_times a c) 0 / rast a) = D).
+  { rewrite last_build_times, (flat_test a c HR Hf').
+    assert (E : (c_up c + (if (0 <? c_flat c)%Z then c_flat c else 0) + c_down c = D)%Z).
+    { destruct (0 <? c_flat c)%Z eqn:E; [lia|]. apply Z.ltb_ge in E. lia. }
+    rewrite E.
+    assert (E2 : inject_Z D * rast a / rast a == inject_Z D) by (field; lra).
+    rewrite E2. apply rnd_he_inject. }
+  assert (LW : length (a_wave g) = Z.to_nat D).
+  { rewrite MW. unfold eta_points_to_waveform. rewrite map_length, seq_length, K0, K1. f_equal. lia. }
+  assert (NW : forall i, (i < Z.to_nat D)%nat -> nth i (a_wave g) 0 == arb_sample_spec a c (Z.of_nat i)).
+  { intros i Hi. rewrite MW. unfold eta_points_to_waveform. rewrite K0, K1, Z.sub_0_r.
+    set (f := fun i0 : nat => eta_interp (build_times a c) (build_amps a c)
+                                (inject_Z (0 + Z.of_nat i0) * rast a + rast a / 2)).
+    rewrite (nth_indep _ 0 (f 0%nat)) by (rewrite map_length, seq_length; exact Hi).
+    rewrite map_nth, seq_nth by exact Hi. unfold f. cbn [plus].
+    apply interp_build; try assumption. lia. }
+  repeat split; try assumption; try lia.
+  - rewrite MT, map_length, seq_length. exact LW.
+  - intros i Hi. rewrite MT, LW.
+    set (f := fun i0 : nat => (inject_Z (Z.of_nat i0) + (1 # 2)) * rast a).
+    rewrite (nth_indep _ 0 (f 0%nat)) by (rewrite map_length, seq_length; exact Hi).
+    rewrite map_nth, seq_nth by exact Hi. reflexivity.
+  - rewrite MD, LW, Z2Nat.id by lia. reflexivity.
+  - rewrite MA. apply Qred_correct.
+Qed.
